@@ -26,7 +26,7 @@ MANIFEST = dict(
          "'Collectable by the GC' is decided on the concrete witness of every path (weakref + gc.collect), not by the solver. S14: lru_cache live under tracing (cache keys in pjrpc are concrete objects).",
 )
 BOUNDS = {
-    'quick': {'step requests': 'jsonrpc in {str, symbolic other} x id in {absent,int,str,bool} x method symbolic str (11 registered methods incl. one that raises an arbitrary exception while holding the context, a view method with the JSON-schema validator, one with defaulted positional-only parameters and two without parameters) x params in K; batches of 0..2 elements over 7 element kinds', 'probe': 'after a concrete first request to each method kind: method symbolic (unbounded string), params in {[int], [int,2,3], {"x": int}}',
+    'quick': {'step requests': 'jsonrpc in {str, symbolic other} x id in {absent,int,str,bool} x method symbolic str (12 registered methods incl. a context-less view whose instances hold per-request scratch state, one that raises an arbitrary exception while holding the context, a view method with the JSON-schema validator, one with defaulted positional-only parameters and two without parameters) x params in K; batches of 0..2 elements over 7 element kinds', 'probe': 'after a concrete first request to each method kind: method symbolic (unbounded string), params in {[int], [int,2,3], {"x": int}}',
               'dispatchers': 'sync, async'},
     'thorough': {'step requests': 'jsonrpc in K x id in K x method in {absent,int,str} x params in K', 'probe': 'as quick', 'dispatchers': 'sync, async'},
 }
@@ -34,7 +34,7 @@ STUBS = ['S1', 'S4 (+ jsonschema.ValidationError.__str__ constant)', 'S5', 'S13'
 OUTSIDE = ['threads', 'PydanticValidator', 'methods that keep state of their own']
 ASSUMPTIONS = []
 BUDGET = {'quick': 40.0, 'thorough': 120.0}
-ELS = ('echo', 'ctxm', 'vm', 'js', 'vjs', 'nosuch', 'notif_vm', 'pos', 'whoami', 'ping', 'boomctx')
+ELS = ('echo', 'ctxm', 'vm', 'js', 'vjs', 'nosuch', 'notif_vm', 'pos', 'whoami', 'ping', 'boomctx', 'push')
 
 
 def setup():
@@ -54,7 +54,7 @@ def obligations(tier):
             prod = it.product(KINDS, KINDS, ('absent', 'int', 'str'), KINDS)
         for kj, ki, km, kp in prod:
             obs.append({'h': 'step', 'disp': disp, 'k': [kj, ki, km, kp]})
-        for first in ('echo', 'ctxm', 'vm', 'js', 'vjs', 'pos', 'nosuch', 'whoami', 'ping', 'boomctx'):
+        for first in ('echo', 'ctxm', 'vm', 'js', 'vjs', 'pos', 'nosuch', 'whoami', 'ping', 'boomctx', 'push'):
             obs.append({'h': 'probe', 'disp': disp, 'first': first, '_budget': 90.0})
         for n in (0, 1, 2):
             for combo in it.product(ELS, repeat=n):
@@ -175,6 +175,25 @@ def _build_dispatcher(env, wire, disp):
     d.add(ctxm, name='ctxm', context='ctx')
     d.add(js, name='js')
     d.registry.view(V, context='ctx')
+
+    # a view registered WITHOUT a context whose instance carries per-request scratch state: every request gets its own instance
+    if is_async:
+        class SV(pjrpc.server.ViewMixin):
+            def __init__(self):
+                self.items = []
+
+            async def push(self, x):
+                self.items.append(x)
+                return list(self.items)
+    else:
+        class SV(pjrpc.server.ViewMixin):
+            def __init__(self):
+                self.items = []
+
+            def push(self, x):
+                self.items.append(x)
+                return list(self.items)
+    d.registry.view(SV)
     return d
 
 
@@ -284,7 +303,7 @@ def _step(env, ob, make_doc, probe=False):
         fresh = _build_dispatcher(env, wire, ob['disp'])
         # warm-up (set-up, concrete): one dispatch per method kind so that legitimately cached per-method data exists
         for dd in (d, fresh):
-            for m, p in (('echo', [1]), ('ctxm', [1]), ('vm', [1]), ('js', {'a': 1}), ('js', {'a': 'x'}), ('nosuch', []), ('pos', [1, 2, 3]), ('ping', []), ('whoami', []), ('vjs', {'a': 1}), ('vjs', {'a': 'x'}), ('boomctx', [1])):
+            for m, p in (('echo', [1]), ('ctxm', [1]), ('vm', [1]), ('js', {'a': 1}), ('js', {'a': 'x'}), ('nosuch', []), ('pos', [1, 2, 3]), ('ping', []), ('whoami', []), ('vjs', {'a': 1}), ('vjs', {'a': 'x'}), ('boomctx', [1]), ('push', [1])):
                 _dispatch(dd, ob['disp'], wire.encode({'jsonrpc': '2.0', 'id': 1, 'method': m, 'params': p}), Ctx())
         before = _fingerprint(d)
     doc = make_doc()
